@@ -17,9 +17,12 @@ MANIFEST = dict(
     technique="Lean 4 proof (index model refines FIFO spec, invariant by induction over operations) + "
               "differential correspondence of cbuf.c against the compiled model",
     text="Theorems in lean/PdshVerif/Props/C13.lean about the index-level model of cbuf.c (all op sequences, "
-         "all sizes, all three modes); the model is executed against the real cbuf.c (assertions+ASan and "
-         "shipped flavour) on generated op histories, and the real code is also compared op by op with the "
-         "plain FIFO specification, which yields the failing history as replay.",
+         "all sizes, all three modes; the property's operation list and, beyond it, replay/rewind, the *_to_fd "
+         "calls on a descriptor that takes only some bytes, and copy/move between two buffers); the protocol "
+         "driver executes exactly the step functions the theorems are about; the model is executed against the "
+         "real cbuf.c (assertions+ASan and shipped flavour) on generated op histories, and the real code is "
+         "also compared op by op with the FIFO specification (with its history of replayable bytes), which "
+         "yields the failing history as replay.",
     design_ref="DESIGN.md section 5 C13",
     note="Lean 4.33 kernel; axioms propext/Classical.choice/Quot.sound at most (audited per theorem every run); "
          "hand-written model tied to cbuf.c by differential execution of the real source built from /repo's "
@@ -379,7 +382,7 @@ def load_corpus():
 
 
 def exhaustive_small(meta):
-    """all op sequences of length <= 5 over a 9-op alphabet on a min=2,max=5 buffer, per mode"""
+    """all op sequences of length <= 5 over a 9-op alphabet on a min=2,max=5 buffer, per mode; plus the replay side"""
     import itertools
     alpha = ["write 610a", "write 6263640a65", "write 0a", "read 1", "read 3", "rline 8 1", "rline 3 -1",
              "drop 2", "wfd -1 780a797a 0"]
@@ -388,4 +391,13 @@ def exhaustive_small(meta):
         for n in range(1, 6):
             for combo in itertools.product(alpha, repeat=n):
                 out.append(["create 2 5 %d" % meta, "opt %d" % mode] + list(combo))
+    # the replay side and the second buffer: all sequences of length <= 4 over a 10-op alphabet on a pair of
+    # tiny buffers (min=2,max=4 and min=1,max=3), per mode of the destination
+    alpha2 = ["write 610a62", "read 2", "replay 2", "rewind 1", "rewind -1", "rfd -1 1", "yfd -1 1", "copy -1",
+              "move 1", "drop 1"]
+    for mode in (0, 1, 2):
+        for n in range(1, 5):
+            for combo in itertools.product(alpha2, repeat=n):
+                out.append(["create 2 4 %d" % meta, "sel 1", "create 1 3 %d" % meta, "opt %d" % mode, "sel 0"] +
+                           list(combo) + ["sel 1", "read 9", "replay 9"])
     return out
